@@ -1,7 +1,7 @@
 """C17, Python part: little/big-endian twins differ only in byteorder of multi-byte accesses."""
 from . import rustcommon as rc
 from .c13 import py_subjects, widths_for
-from .c17 import canon_dec, canon_enc, check_orders
+from .c17 import canon_dec, canon_enc, check_orders, byte_image_duality
 from .. import pyeval
 
 
@@ -36,9 +36,22 @@ def run(rep, g, stats):
                     rep.add("C17|python|serialize|structure", "serialize layouts of the twins differ beyond byte order", where)
                 else:
                     stats["accesses"] += check_py(rep, where, "serialize", o1, o2)
+                bad = [o for ev_ in (sa, sb_) for o in getattr(ev_, "obls", []) if o.kind == "unmodelled" and not o.ok]
+                if bad:
+                    # fail closed: a serializer the evaluator cannot follow has no layout to compare
+                    rep.add("C17|python|serialize|unmodelled", f"a twin's serializer is outside the modelled idioms: {bad[0].what[:120]}",
+                            where)
+                else:
+                    try:
+                        want = r.layout(ty)
+                    except Exception:
+                        want = None
+                    if want is not None:
+                        stats["groups"] = stats.get("groups", 0) + byte_image_duality(rep, where, "python|serialize", want,
+                                                                                      sa.items, sb_.items)
                 stats["types"] += 1
             except Exception as e:
-                rep.notes.append(f"{where}: python twin comparison failed: {type(e).__name__}: {e}")
+                rep.add("C17|python|evaluator-crashed", f"python twin comparison failed: {type(e).__name__}: {e}", where)
 
 
 def check_py(rep, where, side, le, be):
